@@ -150,7 +150,7 @@ PROPS["C18"] = {
          "checks": {"quick": 10000, "thorough": 150000}, "shards": {"quick": 2, "thorough": 8}},
         # response metadata as the gRPC reference client reports it, every kind of RPC against the in-process gRPC reference server
         {"name": "C18GRPCClientMeta", "pkg": "internal/app/grpcclient", "test": "TestVerifC18GRPCClientMeta", "kind": "rapid",
-         "checks": {"quick": 1500, "thorough": 30000}, "shards": {"quick": 2, "thorough": 8}},
+         "checks": {"quick": 3000, "thorough": 30000}, "shards": {"quick": 2, "thorough": 8}},
     ],
 }
 
@@ -563,4 +563,21 @@ _ADDED8 = {
     "C17": " Raw response status codes up to 999.",
 }
 for _pid, _txt in _ADDED8.items():
+    PROPS[_pid]["rule"] = PROPS[_pid]["rule"] + _txt
+_ADDED9 = {
+    "C04": " Table / Random spell the markings as full names, as a literal next to a wildcard at the same level, or as **/name next to a literal for another case.",
+    "C05": " Dispatch: stale TLS material on generated requests; the TLS axis spelled in a name agrees with the server instance the permutation is filed under.",
+    "C07": " Expansion: service / method spelled out as empty strings.",
+    "C09": " ClientStall: the runner's reader of a client that answers k requests and then stalls (nothing / inside the prefix / inside the message).",
+    "C11": " Batch: outcomes at the batch's return are final (answers logged through a slow printer); the report afterwards keeps setup errors and failures.",
+    "C12": " Shutdown: stop signal while a request is being uploaded; the trailer feedback still reaches stderr (HTTP/1.1, TLS HTTP/2).",
+    "C13": " Malformed: malformations at the edge of a trailer value; null-valued members of an error detail.",
+    "C14": " Bodies: the printed form of the trace agrees with its events.",
+    "C15": " RetryTimer (shared with C16), also with a slow collector; Exchange: HPACK dynamic-table size changes in either direction.",
+    "C16": " RunnerHandOff: the batch runner with a tracer - a trace completed before / right after the request is handed over reaches the report, also under GOMAXPROCS(1).",
+    "C17": " RawRequest in place of unary, client-stream, server-stream, half- and full-duplex bidi calls.",
+    "C18": " GRPCClientMeta: response metadata reported by the gRPC reference client for every kind of RPC (in-process gRPC reference server).",
+    "C20": " ServerWire: with the runner's number for the encoding, the server's own compression check stays silent.",
+}
+for _pid, _txt in _ADDED9.items():
     PROPS[_pid]["rule"] = PROPS[_pid]["rule"] + _txt
